@@ -7,18 +7,58 @@ namespace Pulsar
 /-- With Deterministic set the result does not depend on the Go runtime's map iteration order, at any
     nesting depth (the flag is passed unchanged to every nested Marshal). No typing hypothesis needed. -/
 theorem C05_order_independent (S : Schema) (fuel i : Nat) (v : Val) (π π' : List Val → List Val) :
-    implMarshal S ⟨true, π⟩ fuel i v = implMarshal S ⟨true, π'⟩ fuel i v := sorry
+    implMarshal S ⟨true, π⟩ fuel i v = implMarshal S ⟨true, π'⟩ fuel i v :=
+  implMarshal_det S π π' fuel i v
 
 /-- Deterministic bytes do not depend on the representation (nil-vs-empty containers and byte slices,
     order in which the map entries happen to be stored). -/
 theorem C05_rep_independent (S : Schema) (hS : S.WF = true) (fuel i : Nat) (v : Val) (π : List Val → List Val)
     (hi : i < S.msgs.length) (hv : msgOK S false fuel i v = true) :
-    implMarshal S ⟨true, π⟩ fuel i v = implMarshal S ⟨true, π⟩ fuel i (repNorm S fuel i v) := sorry
+    implMarshal S ⟨true, π⟩ fuel i v = implMarshal S ⟨true, π⟩ fuel i (repNorm S fuel i v) := by
+  obtain ⟨hok, henc⟩ := repNorm_ok S fuel i v hv
+  have hord : ∀ kk es, (ordOf ⟨true, π⟩ kk es).Perm es := fun kk es => sortEntries_perm kk es
+  obtain ⟨h1, _, _, h4⟩ := marshal_ok hS ⟨true, π⟩ hord fuel i v hi hv
+  obtain ⟨h1', _, _, h4'⟩ := marshal_ok hS ⟨true, π⟩ hord fuel i _ hi hok
+  rw [h1, h1', h4 rfl, h4' rfl, henc]
 
 /-- Equal messages (same value, possibly built through different histories) give identical bytes. -/
 theorem C05_equiv_same_bytes (S : Schema) (hS : S.WF = true) (fuel i : Nat) (v w : Val) (π π' : List Val → List Val)
     (hi : i < S.msgs.length) (hv : msgOK S false fuel i v = true) (hw : msgOK S false fuel i w = true)
     (h : Equiv S fuel i v w) :
-    implMarshal S ⟨true, π⟩ fuel i v = implMarshal S ⟨true, π'⟩ fuel i w := sorry
+    implMarshal S ⟨true, π⟩ fuel i v = implMarshal S ⟨true, π'⟩ fuel i w := by
+  rw [C05_rep_independent S hS fuel i v π hi hv, C05_order_independent S fuel i w π' π,
+    C05_rep_independent S hS fuel i w π hi hw]
+  unfold Equiv at h
+  rw [h]
+
+/-! ### axioms -/
+#print axioms C05_order_independent
+#print axioms C05_rep_independent
+#print axioms C05_equiv_same_bytes
+
+/-! ### non-vacuity: a concrete schema, and two different Go representations of one message value -/
+section NonVacuity
+open Example
+
+example : exS.WF = true ∧ msgOK exS false 2 0 exV = true ∧ msgOK exS false 2 0 exW = true :=
+  ⟨exS_wf, exV_ok, exW_ok⟩
+
+/-- `exV` and `exW` are different values (flags and stored entry order differ) … -/
+example : Val.beq exV exW = false := by decide
+
+/-- … of the same message. -/
+theorem exV_equiv_exW : Equiv exS 2 0 exV exW := by
+  unfold Equiv
+  rfl
+
+example (π π' : List Val → List Val) :
+    implMarshal exS ⟨true, π⟩ 2 0 exV = implMarshal exS ⟨true, π'⟩ 2 0 exW :=
+  C05_equiv_same_bytes exS exS_wf 2 0 exV exW π π' (by decide) exV_ok exW_ok exV_equiv_exW
+
+example (π : List Val → List Val) :
+    implMarshal exS ⟨true, π⟩ 2 0 exV = implMarshal exS ⟨true, π⟩ 2 0 (repNorm exS 2 0 exV) :=
+  C05_rep_independent exS exS_wf 2 0 exV π (by decide) exV_ok
+
+end NonVacuity
 
 end Pulsar
